@@ -85,6 +85,10 @@ impl CommandAnalyzer {
 
         // Extract commands from cached ASTs
         let file_paths: Vec<PathBuf> = self.ast_cache.keys().cloned().collect();
+        #[cfg(feature = "verif-hooks")]
+        let file_paths = crate::verif_hooks::permute("S1.files", file_paths, |p| {
+            p.to_string_lossy().to_string()
+        });
         let mut commands = Vec::new();
         let mut type_names_to_discover = HashSet::new();
 
